@@ -29,6 +29,7 @@ from static_frame.core.util import binary_transition
 from static_frame.core.util import column_1d_filter
 from static_frame.core.util import column_2d_filter
 from static_frame.core.util import DTYPE_BOOL
+from static_frame.core.util import DTYPE_INT_DEFAULT
 from static_frame.core.util import DTYPE_INEXACT_KINDS
 from static_frame.core.util import DTYPE_OBJECT
 from static_frame.core.util import dtype_to_fill_value
@@ -893,6 +894,9 @@ class TypeBlocks(ContainerOperand):
             else:
                 dtype = self._row_dtype
                 astype_pre = True # if no dtypes given (like bool) we can coerce
+                if dtype == DTYPE_BOOL and ufunc is np.sum:
+                    # the sum of Booleans is a count: a Boolean output array would saturate at True
+                    dtype = DTYPE_INT_DEFAULT
 
             # If dtypes were specified, we know we have specific targets in mind for output
             out = np.empty(shape, dtype=dtype)
